@@ -191,7 +191,27 @@ def query_forms():
           ("strategy=", "strategy S2 = control: A<> {p}"), ("strategy=minE", "strategy S3 = minE ( {n} ) [<=10] : <> {p}"),
           ("A[]", "A[] {p}"), ("A[]imply", "A[] {p} imply {q}"), ("E<>and", "E<> {p} and {q}"), ("A[]not", "A[] not {p}"),
           ("A<>or", "A<> {p} or {q}")]
+    # MITL
+    F += [("mitl<>", "Pr ( <> [ 0 , 5 ] {p} )"), ("mitl[]", "Pr ( [] [ 1 , 2 ] {p} )"), ("mitlU", "Pr ( ( {p} U [ 0 , 5 ] {q} ) )"),
+          ("mitlR", "Pr ( ( {p} R [ 1 , 2 ] {q} ) )"), ("mitlX", "Pr ( ( X {p} ) )"), ("mitl&&", "Pr ( ( <> [ 0 , 5 ] {p} ) && ( [] [ 1 , 2 ] {q} ) )"),
+          ("mitl||", "Pr ( ( X {p} ) || ( {q} ) )"), ("mitl-nested", "Pr ( ( ( X {p} ) U [ 0 , 3 ] ( <> [ 1 , 2 ] {q} ) ) )"),
+          ("mitl-mixed", "Pr ( ( ( X {p} ) || ( {q} ) ) && ( ( {q} R [ 0 , 1 ] {p} ) ) )"), ("mitl-atom", "Pr {p}"),
+          ("control-buchi", "control: A[] ( {p} and A<> {q} )")]
     return F
+
+
+# forms that refer to strategies: the strategy declarations are parsed in front of the query, in the same call
+STRATEGY_PREAMBLE = "strategy S8 = control: A<> p\nstrategy S9 = minE ( a ) [<=10] : <> p"
+
+
+def strategy_forms():
+    return [("under-E<>", "E<> {p} under S8"), ("under-A[]", "A[] {p} under S8"), ("under-leadsto", "{p} --> {q} under S8"),
+            ("under-Pr", "Pr[<=10] ( <> {p} ) under S9"), ("under-Pr>=", "Pr[<=10] ( <> {p} ) >= 0.5 under S9"),
+            ("under-Pr>=Pr", "Pr[<=10] ( <> {p} ) under S9 >= Pr[<=10] ( <> {q} )"), ("under-sim", "simulate [<=10] {{ {n} }} under S9"),
+            ("under-E", "E[<=10; 100] ( max: {n} ) under S9"), ("under-sup", "sup: {n} under S8"), ("under-control", "control: A<> {p} under S8"),
+            ("under-minE", "minE ( {n} ) [<=10] : <> {p} under S8"), ("imitate", "strategy S10 = minE ( {n} ) [<=10] : <> {p} imitate S9"),
+            ("under-imitate", "strategy S11 = maxE ( {n} ) [<=10] : <> {p} under S8 imitate S9"), ("saveStrategy", "saveStrategy ( \"file\" , S8 )"),
+            ("under-mitl", "Pr ( <> [ 0 , 5 ] {p} ) under S9")]
 
 
 def run_queries(shard):
@@ -217,6 +237,28 @@ def run_queries(shard):
     for fid, text, r in zip(meta, items, res):
         part.count()
         rp = {"op": "queries", "ctx": ctx, "items": [text], "print": True}
+        if engine.check_crash(part, PID, r, text, rp):
+            continue
+        if r.get("exc") is not None and r.get("std") is False:
+            part.violation("query-nonstd-exception:" + fid, "query `%s` ends in a non-std exception %s" % (text, r["exc"]), rp)
+            continue
+        judge(part, "query", text, r, rp, fid)
+        if r.get("sexpr") is not None and not r.get("err"):
+            part.add("qform_ok:" + fid, 1)
+    # forms over declared strategies (under / imitate / saveStrategy)
+    items, meta = [], []
+    for k, (fid, tpl) in enumerate(strategy_forms()):
+        if k % n != fi:
+            continue
+        for p in (BOOLS[:8] if "{p}" in tpl else [None]):
+            for nn in (NUMS[:6] if "{n}" in tpl else [None]):
+                items.append(tpl.format(p=p, q="q", n=nn, m="b"))
+                meta.append(fid)
+    kw = {"preamble": STRATEGY_PREAMBLE, "preamble_props": 2}
+    res = call(w, "queries", ctx, items, **kw) if items else []
+    for fid, text, r in zip(meta, items, res):
+        part.count()
+        rp = dict({"op": "queries", "ctx": ctx, "items": [text], "print": True}, **kw)
         if engine.check_crash(part, PID, r, text, rp):
             continue
         if r.get("exc") is not None and r.get("std") is False:
@@ -271,7 +313,7 @@ def main():
         rep.merge(res)
     acc = sorted(k[9:] for k in list(rep.extra) if k.startswith("qform_ok:"))
     rep.extra["query_forms_accepted"] = {k: rep.extra.pop("qform_ok:" + k) for k in acc}
-    rep.extra["query_forms_never_accepted"] = sorted(set(f for f, _ in query_forms()) - set(acc))
+    rep.extra["query_forms_never_accepted"] = sorted(set(f for f, _ in query_forms() + strategy_forms()) - set(acc))
     rep.assumptions = ["the set of expressions/queries is defined by the library's own acceptance (no diagnostics)",
                        "tree equality is judged on the harness s-expression (kinds, order, symbol names, constants as hex floats)"]
     sys.exit(rep.finish())
